@@ -216,6 +216,11 @@ template <class F> typename F::Rhs rhsPattern(long i, int v, int cycle) {
     else return typename F::Rhs();
 }
 
+template <class F> typename F::Rhs signedPattern(typename F::Rhs v, bool negative) {
+    if constexpr (std::is_arithmetic<typename F::Rhs>::value && std::is_signed<typename F::Rhs>::value) return negative ? typename F::Rhs(-v) : v;
+    else return v;
+}
+
 template <class F> Segment c17Segment(long nQ, long nT) {
     Segment s; s.name = "c17-" + F::name();
     s.count = [=](bool th) { return th ? nT : nQ; };
@@ -268,7 +273,8 @@ template <class F> Segment c13Segment(long nQ, long nT) {
         for (int cyc = 0; cyc < cycles; ++cyc) {
             // results and expansions get recognisable content
             tree.applyToAllLeaves([&](auto& hdr, const long* idx, auto&&, auto&& rhs) {
-                if constexpr (F::NRHS > 0) for (long p = 0; p < hdr.nbParticles; ++p) for (int v = 0; v < F::NRHS; ++v) { rhs[v][p] = rhsPattern<F>(idx[p], v, cyc); rhsNow[idx[p]][v] = rhs[v][p]; }
+                // every third cycle all results are negative (an attractive potential): whether anything is restored must not depend on signs or magnitudes
+                if constexpr (F::NRHS > 0) for (long p = 0; p < hdr.nbParticles; ++p) for (int v = 0; v < F::NRHS; ++v) { rhs[v][p] = signedPattern<F>(rhsPattern<F>(idx[p], v, cyc), (kk + cyc) % 3 == 0); rhsNow[idx[p]][v] = rhs[v][p]; }
             });
             tree.applyToAllCells([&](long, auto&, auto& m, auto& l) { if (m) m->get()[0] = 7; if (l) l->get()[0] = 9; });
             // edit positions in place: subset moves (some to a single leaf -> empties leaves, some spread -> creates leaves, some to faces)
@@ -357,7 +363,8 @@ template <class F> Segment c13TsmSegment(long nQ, long nT) {
         long moved = 0;
         for (int cyc = 0; cyc < cycles; ++cyc) {
             tt.applyToAllLeavesTarget([&](auto& hdr, const long* idx, auto&&, auto&& rhs) {
-                if constexpr (F::NRHS > 0) for (long p = 0; p < hdr.nbParticles; ++p) for (int v = 0; v < F::NRHS; ++v) { rhs[v][p] = rhsPattern<F>(idx[p], v, cyc); rhsNow[idx[p]][v] = rhs[v][p]; }
+                // every third cycle all results are negative (an attractive potential): whether anything is restored must not depend on signs or magnitudes
+                if constexpr (F::NRHS > 0) for (long p = 0; p < hdr.nbParticles; ++p) for (int v = 0; v < F::NRHS; ++v) { rhs[v][p] = signedPattern<F>(rhsPattern<F>(idx[p], v, cyc), (kk + cyc) % 3 == 0); rhsNow[idx[p]][v] = rhs[v][p]; }
             });
             tt.applyToAllCellsSource([&](long, auto&, auto& m, auto&) { if (m) m->get()[0] = 7; });
             tt.applyToAllCellsTarget([&](long, auto&, auto&, auto& l) { if (l) l->get()[0] = 9; });
